@@ -105,6 +105,30 @@ class UserAddNode(ActionGroup):
                 f"Cannot add node {node} without position or segmentation."
             )
 
+        try:
+            self._apply_sub_actions(node, attributes, pixels, force, pred, succ)
+        except Exception:
+            # a refused edit must leave the tracks unchanged (e.g. pixels that cannot be
+            # written): take back the sub-actions that were already applied
+            for action in reversed(self.actions):
+                action.inverse()
+            raise
+
+        if _top_level:
+            self.tracks.action_history.add_new_action(self)
+            self.tracks.refresh.emit(node)
+
+    def _apply_sub_actions(
+        self,
+        node: int,
+        attributes: dict[str, Any],
+        pixels: tuple[np.ndarray, ...] | None,
+        force: bool,
+        pred: int | None,
+        succ: int | None,
+    ) -> None:
+        """Remove the conflicting edges (if forced) and add the node with its edges."""
+        tracks = self.tracks
         # check if you are adding a node to a track that divided previously
         if pred is not None and self.tracks.graph.out_degree(pred) == 2:
             if not force:
@@ -164,7 +188,3 @@ class UserAddNode(ActionGroup):
             self.actions.append(AddEdge(tracks, (pred, node)))
         if succ is not None:
             self.actions.append(AddEdge(tracks, (node, succ)))
-
-        if _top_level:
-            self.tracks.action_history.add_new_action(self)
-            self.tracks.refresh.emit(node)
